@@ -13,7 +13,7 @@ LEVEL_NOTE = ("The numeric sub-routines (Snell inversion, sign of Δk_z, optimum
               "the model (`Ext`); on correspondence lines their concrete results are passed in from explicit public calls on the real code "
               "(layered correspondence). Model fidelity is checked, not proved. JSON loss-freeness (ryu / serde_json) and the float shadow of the "
               "ℝ fix-point (1e-9 relative) are observed by the predicate search only.")
-OPS = {"pm_parse", "pol_parse", "pm_table", "try_as_spdc", "as_config"}
+OPS = {"pm_parse", "pol_parse", "pm_table", "try_as_spdc", "as_config", "sigfigs"}
 TOL = {"try_as_spdc": ("rel", 1e-9), "as_config": ("ulp", 2)}
 DEFAULT_TOL = ("exact",)
 RULE = ("family pmtype: all tables, documented spellings, structured templates prefix×sep×digit×sep×P×mid×S×I×suffix (sampled in quick, "
